@@ -85,6 +85,18 @@ void Uci::loop()
             sync_cout << "Unknown command" << sync_endl;
         }
     }
+
+    // quit or end of input: the search thread uses this object
+    finish_search();
+}
+
+void Uci::finish_search()
+{
+    if (search_thread.joinable())
+    {
+        if (search) search->stop();
+        search_thread.join();
+    }
 }
 
 bool Uci::uci_command(std::istringstream& /* istream */)
@@ -294,10 +306,13 @@ bool Uci::go_command(std::istringstream& istream)
         }
     }
 
+    // the previous search thread may still be running (or returning): it
+    // must be gone before its Search object is replaced
+    finish_search();
+
     search = std::make_shared<Search>(position, limits, scorer, ttable);
 
-    std::thread search_thread(start_searching, this);
-    search_thread.detach();
+    search_thread = std::thread(start_searching, this);
 
     return true;
 }
@@ -315,7 +330,7 @@ bool Uci::ponderhit_command(std::istringstream& /* istream */)
 
 bool Uci::quit_command(std::istringstream& /* istream */)
 {
-    if (search) search->stop();
+    finish_search();
     quit = true;
     return true;
 }
